@@ -71,4 +71,21 @@ theorem C09_stopping_supervisor_kills_failing_child (s : Sys) (sup f : Cid) (ts 
     onSupervise s sup ((f, ts) :: rest) = tell s true (some sup) (.own f) (.onKill false) := by
   unfold onSupervise; simp [h]
 
+/-- A decision value outside the defined range is escalated (as documented on `SupervisionDecision`), it does not leave
+the failing child paused without a directive: the supervisor's mailbox is paused and its own parent (if any) is handed
+the failure, exactly as for Escalate. Stated on the effect that matters for C09: whatever the value `d ∉ 1..5`, the
+supervisor ends up paused, i.e. the failure is now *its* failure and the level above will answer it. -/
+theorem C09_unknown_decision_is_escalated (s : Sys) (sup f : Cid) (rest : List (Cid × List Cid)) (d : Nat)
+    (hs : (s.ctx sup).strat = 1) (hdec : (s.ctx sup).decisions = [d])
+    (h1 : d ≠ 1) (h2 : d ≠ 2) (h3 : d ≠ 3) (h4 : d ≠ 4) (h5 : d ≠ 5) :
+    onSuperviseDecide s sup ((f, []) :: rest) =
+      (let s2 := tellAll (say (upd s sup (fun x => { x with decIdx := x.decIdx + 1 })) s!"decide:{sup}:{f}:{d}")
+          true (some sup) [f] .cmdPause
+       let s3 := upd s2 sup (fun x => { x with paused := true })
+       let t : Target := match (s.ctx sup).parent with | some p => .own p | none => .nobody
+       tell s3 true (some sup) t (.supervise ((sup, []) :: (f, [f]) :: rest) [])) := by
+  unfold onSuperviseDecide
+  simp [hs, hdec, Nat.mod_one, h1, h2, h3, h4, h5]
+  rfl
+
 end Vivid.ActorSys
